@@ -179,6 +179,93 @@ theorem axfr_flat (o : Name) (v : Version) (z0 : Zone) (ser : Option Nat) (hb : 
       · exact Or.inl ⟨h, fun hk => (mem_recsOfAll_ok hb h).1 hk.2⟩
       · exact Or.inr h
 
+/-! ## out-of-zone records in a transfer are skipped -/
+
+/-- rrsets a server may send in the body of a transfer, glue outside the zone included: not of type SOA,
+not empty -/
+def BodyOkOoz (l : List RRset) : Prop := ∀ rs ∈ l, rs.rdtype ≠ soaType ∧ rs.rdatas ≠ []
+
+/-- the part of a body that belongs to the zone at `o` -/
+def inZone (o : Name) (l : List RRset) : List RRset := l.filter fun rs => isSubdomain rs.owner o
+
+/-- "Ignore glue that is not a subdomain of the origin": in add mode the state does not change -/
+theorem mid_skip {fix : Bool} {o t inc ser udp f x z} {rs : RRset} {dm more : Bool}
+    (ht : rs.rdtype ≠ soaType) (hz : isSubdomain rs.owner o = false) :
+    procRRset fix (mid o t inc ser udp f false dm x z) rs more = .ok (mid o t inc ser udp f false dm x z) := by
+  simp [mid, procRRset, ht, fallbackState, fallbackTxn, procData, hz]
+
+/-- a run of data rrsets in add mode, some of them outside the zone: the ones inside are stored -/
+theorem mid_adds_ooz {fix : Bool} {o t inc ser udp f z} : ∀ (l : List RRset) (x : Txn), BodyOkOoz l →
+    Coherent (x.work ++ recsOfAll (inZone o l)) →
+    ∃ x', procAnswers fix (mid o t inc ser udp f false false x z) l =
+        .ok (mid o t inc ser udp f false false x' z) ∧ x'.work ≃z (x.work ++ recsOfAll (inZone o l)) := by
+  intro l
+  induction l with
+  | nil => intro x _ _; exact ⟨x, by simp [procAnswers], by simp [inZone, recsOfAll_nil, Zone.equiv_refl]⟩
+  | cons rs rest ih =>
+    intro x hb hc
+    have h1 := hb rs (by simp)
+    have hbr : BodyOkOoz rest := fun r hr => hb r (by simp [hr])
+    cases hz : isSubdomain rs.owner o with
+    | false =>
+      have hin : inZone o (rs :: rest) = inZone o rest := by simp [inZone, hz]
+      rw [hin] at hc ⊢
+      obtain ⟨x2, e2, q2⟩ := ih x hbr hc
+      exact ⟨x2, by unfold procAnswers; rw [mid_skip h1.1 hz]; exact e2, q2⟩
+    | true =>
+      have hin : inZone o (rs :: rest) = rs :: inZone o rest := by simp [inZone, hz]
+      rw [hin, recsOfAll_cons, ← List.append_assoc] at hc
+      obtain ⟨x1, e1, q1⟩ := mid_add (fix := fix) (o := o) (t := t) (inc := inc) (ser := ser) (udp := udp) (f := f)
+        (z := z) (x := x) (more := !rest.isEmpty) h1.1 hz h1.2 (hc.subset fun r hr => List.mem_append.2 (Or.inl hr))
+      obtain ⟨x2, e2, q2⟩ := ih x1 hbr (Coherent.congr (Zone.equiv_append q1 _) hc)
+      refine ⟨x2, by unfold procAnswers; rw [e1]; exact e2, ?_⟩
+      rw [hin, recsOfAll_cons, ← List.append_assoc]
+      exact Zone.equiv_trans q2 (Zone.equiv_append q1 _)
+
+theorem bodyOk_inZone {o : Name} {l : List RRset} (h : BodyOkOoz l) : BodyOk o (inZone o l) := by
+  intro rs hrs
+  simp only [inZone, List.mem_filter] at hrs
+  exact ⟨(h rs hrs.1).1, hrs.2, (h rs hrs.1).2⟩
+
+/-- the flat AXFR run with glue outside the zone in the body: completes, and the zone is the in-zone part
+of the version sent -/
+theorem axfr_flat_ooz (o : Name) (v : Version) (z0 : Zone) (ser : Option Nat) (hb : BodyOkOoz v.body)
+    (hco : Coherent (zoneOf o ⟨v.soa, inZone o v.body⟩)) :
+    ∃ s', flatRun ⟨some o, axfrType, ser, false⟩ z0 (axfrStream o v) = .ok s' ∧ s'.done = true ∧
+      s'.zone ≃z zoneOf o ⟨v.soa, inZone o v.body⟩ := by
+  have hbi := bodyOk_inZone (o := o) hb
+  have hsub : ∀ r ∈ ([] : Zone) ++ recsOfAll (inZone o v.body), r ∈ zoneOf o ⟨v.soa, inZone o v.body⟩ := fun r hr =>
+    mem_zoneOf.2 (Or.inl (by simpa using hr))
+  obtain ⟨x1, e1, q1⟩ := mid_adds_ooz (fix := false) (o := o) (t := axfrType) (inc := false) (ser := ser) (udp := false)
+    (f := soaRR o v.soa) (z := z0) v.body ⟨[], false⟩ hb (hco.subset hsub)
+  have hcn : ∀ q ∈ x1.work, q.owner = o → kindOf q.rdtype ≠ .cname := by
+    intro q hq ho
+    exact no_cname_beside hco (mem_zoneOf.2 (Or.inr rfl)) (soaRec_regular o v.soa) q (hsub q ((q1 q).1 hq)) ho
+  obtain ⟨zf, e2, q2⟩ := mid_final_axfr (o := o) (t := axfrType) (ser := ser) (udp := false) (x := x1) (z := z0)
+    (d := v.soa) (dm := false) (more := false) hcn
+  refine ⟨fin o axfrType false ser false (soaRR o v.soa) false false zf, ?_, rfl, ?_⟩
+  · have h0 : Inbound.init (some o) z0 axfrType ser false =
+        .ok ⟨o, axfrType, false, ser, false, none, false, false, false, none, z0⟩ := by
+      simp [Inbound.init, axfrType, ixfrType]
+    have h1 : firstSoa (openTxn ⟨o, axfrType, false, ser, false, none, false, false, false, none, z0⟩) (soaRR o v.soa) false =
+        .ok (mid o axfrType false ser false (soaRR o v.soa) false false ⟨[], false⟩ z0) := by
+      simp [firstSoa, openTxn, writer, mid]
+    unfold flatRun axfrStream
+    simp only [h0, h1]
+    rw [procAnswers_append, e1]
+    simp only [procAnswers, List.isEmpty_nil, Bool.not_true]
+    rw [e2]
+  · intro r
+    rw [fin_zone, q2 r, mem_putSoa, q1 r, mem_zoneOf]
+    simp only [List.nil_append]
+    constructor
+    · rintro (⟨h, _⟩ | h)
+      · exact Or.inl h
+      · exact Or.inr h
+    · rintro (h | h)
+      · exact Or.inl ⟨h, fun hk => (mem_recsOfAll_ok hbi h).1 hk.2⟩
+      · exact Or.inr h
+
 /-! ## IXFR: the machine applies the difference sequences one after the other -/
 
 /-- `delete_exact` of the records `dels`, one at a time -/
@@ -660,6 +747,46 @@ theorem run_udp_single {c : Config} {z0 : Zone} {m : Msg} {rr0 r1 : RRset} {rest
         rw [hf]
         simp [udpCheck, hd]
       simp [runLoop, hpm, hd]
+
+/-- A UDP datagram that carries only the beginning of the response (at least two records, the flat run is
+still waiting at its end): `FormError` ("unexpected end of UDP IXFR"), raised with the zone as committed
+so far — which, nothing having been committed, is the zone before (`repaired_of_shipped_formError`). -/
+theorem run_udp_single_incomplete {c : Config} {z0 : Zone} {m : Msg} {rr0 r1 : RRset} {rest : List RRset} {s' : Inbound}
+    (hu : c.isUdp = true) (hc : Chunks c (rr0 :: r1 :: rest) [m]) (hf : flatRun c z0 (rr0 :: r1 :: rest) = .ok s')
+    (hd : s'.done = false) :
+    run false c z0 [m] = ⟨some .FormError, s'.zone⟩ := by
+  unfold flatRun at hf
+  unfold run
+  cases hi : Inbound.init c.origin z0 c.rdtype c.serial c.isUdp with
+  | error e => rw [hi] at hf; cases hf
+  | ok s0 =>
+    rw [hi] at hf
+    have ip := init_props hi
+    have o := openTxn_props s0
+    simp only [] at hf ⊢
+    have hm : m.answer = rr0 :: r1 :: rest := by simpa using hc.flat
+    have hhdr : headerErr (openTxn s0) m = none :=
+      headerErr_of_chunk (by rw [o.1.1]; exact ip.1) (by rw [o.1.2.1]; exact ip.2.1) (hc.hdr m (by simp))
+    have hsoa0 : (openTxn s0).soa = none := by rw [o.1.2.2.2]; exact ip.2.2.2.2.1
+    cases h1 : firstSoa (openTxn s0) rr0 false with
+    | error e => rw [h1] at hf; cases hf
+    | ok s1 =>
+      rw [h1] at hf
+      simp only [] at hf
+      have hus : s'.isUdp = true := by
+        rw [(procAnswers_ok hf).1.2.2.1, (firstSoa_ok h1).2.2.2.2.1, o.1.2.2.1, ip.2.2.1]; exact hu
+      have hpm : procMessage false s0 m = .error (.FormError, s'.zone) := by
+        unfold procMessage
+        rw [hhdr]
+        simp only []
+        unfold procBody
+        rw [hsoa0, hm]
+        simp only [List.isEmpty_cons]
+        rw [h1]
+        simp only []
+        rw [hf]
+        simp [udpCheck, hd, hus]
+      simp [runLoop, hpm]
 
 /-- **Already up to date**: the server's SOA carries the serial we asked about; with nothing else in the
 message the transfer is complete, nothing is raised and the zone is untouched (either variant, TCP or UDP). -/
